@@ -261,6 +261,8 @@ def world_op(j):
         if j.get("via") == "sid_get_attr":      # the same values read one by one through Sid.get_attr
             x0 = Sid(j["sid"])
             r = {a: x0.get_attr(a) for a in j["attributes"]}
+        elif j.get("via") == "getter_get_attr":  # ... or through get_attr of the (long-lived) Getter
+            r = {a: g.get_attr(j["sid"], a) for a in j["attributes"]}
         else:
             r = g.get_data(j["sid"], attributes=j.get("attributes") or None, sid_encode=_enc(j.get("enc", "str")))
         out = []
@@ -283,6 +285,20 @@ def world_op(j):
                     out.append([k, None if (v is None and j.get("attributes")) else _jtext(v)])
             recs.append(out)
         return recs
+    if do in ("find_paths", "find_all") and j.get("via") in ("exists", "find_one"):
+        # the same Finder (possibly the long-lived one) asked through exists() / find_one(): C12 says they are
+        # "find yields something" / "the first element of find"; the answer compared with the model is find's
+        f = _inst(FindInPaths, config, reuse=reuse) if do == "find_paths" else _inst(FindInAll, j.get("all_config"), reuse=reuse)
+        found = list(f.find(j["s"], as_sid=False))
+        if j["via"] == "exists":
+            e = f.exists(j["s"])
+            if bool(e) != bool(found):
+                return ["<exists() = %r but find() yields %r>" % (e, found)]
+        else:
+            one = f.find_one(j["s"], as_sid=False)
+            if one != (found[0] if found else None):
+                return ["<find_one() = %r but find() yields %r>" % (one, found)]
+        return sorted(found)
     if do == "find_paths":
         return sorted(_inst(FindInPaths, config, reuse=reuse).find(j["s"], as_sid=False))
     if do == "find_all":
